@@ -84,7 +84,7 @@ theorem checks_spec (s : Sizes) (len : Nat) (junk : Bool) (hr : s.InRange) (hlf 
   by_cases h4 : s.nw = 0 ∨ s.nh = 0 ∨ s.nd = 0 ∨ s.ni = 0
   · left; exact ⟨_, by rw [if_pos h4]⟩
   rw [if_neg h4]
-  by_cases h5 : 255 < s.ne
+  by_cases h5 : 256 < s.ne
   · left; exact ⟨_, by rw [if_pos h5]⟩
   rw [if_neg h5]
   by_cases h6 : ¬ (-lim16 ≤ sumI s.parts ∧ sumI s.parts < lim16) ∨ s.lf ≠ sumI s.parts
